@@ -25,8 +25,15 @@ def run_one(name, props, path, old, new, expect_violation):
             for l in viol[:1]:
                 try: what = json.load(open(l.split('replay=')[1].split()[0])).get('what', '')
                 except Exception: pass
-            out.append((pid, r.returncode, len(viol), len(nf), what[:90]))
-        caught = any(nv > 0 for _, rc, nv, _, _ in out)
+            # every replay file with a concrete input must reproduce against the mutant
+            norep = 0
+            for l in viol:
+                if l.endswith('no-failing-input-found'): continue
+                f = l.split('replay=')[1].split()[0]
+                rr = subprocess.run([os.path.join(VERIF, 'check'), pid, '--no-build', '--replay', f], capture_output=True, text=True, env=env, cwd=VERIF)
+                if rr.returncode == 0: norep += 1
+            out.append((pid, r.returncode, len(viol), len(nf), what[:90]) + (('REPLAY-DOES-NOT-REPRODUCE=%d' % norep,) if norep else ()))
+        caught = any(o[2] > 0 for o in out)
         verdict = ('CAUGHT' if caught else 'MISSED') if expect_violation else ('FALSE-ALARM' if caught else 'SILENT-OK')
         return name, verdict, out
     finally:
